@@ -29,6 +29,12 @@ func TestProbe(t *testing.T) {
 			c.Set("cardLimit", int64(n))
 		}
 		for _, l := range strings.Split(strings.TrimSpace(body), "\n") {
+			if strings.HasPrefix(l, "QUERY ") {
+				send()
+				sr, err := c.Search(sut.Query{Index: "p", Text: strings.TrimPrefix(l, "QUERY "), Start: 1, End: 1800000000000, Size: 100})
+				fmt.Println("prequery:", err, sr)
+				continue
+			}
 			switch strings.TrimSpace(l) {
 			case "FLUSH":
 				send()
